@@ -15,6 +15,7 @@ P == N("probe", "", <<>>)
 Wrap(m, t) == N(m, "", <<t>>)
 Modes == {"auto", "fill", "match", "group"}
 ST == N("stop", "", <<>>)
+LazyIn(m, a) == N("pipe", "", <<N(m, "", <<N("iter", "", <<a>>)>>), N("consume", "", <<>>)>>)
 
 \* trees by constructor choice; W(d): a "wrapped thing" of depth <= d
 RECURSIVE Trees(_)
@@ -40,6 +41,7 @@ WellModed(t, mode) ==
   /\ (t.k \in {"tup", "dict"} => mode \notin {"MATCH", "GROUP"})   \* there they are patterns / accumulators
   /\ (t.k = "mdict" => mode = "MATCH" /\ NoDict(t.c[1]) /\ NoGroup(t.c[1]))   \* key result hashable, key target a string
   /\ (t.k = "stop" => FALSE)
+  /\ (t.k = "consume" => mode \in {"AUTO", "FILL"})      \* `list` is a callable there (a type pattern under Match)
   /\ \A i \in 1..Len(t.c) :
         \/ (t.k = "group" /\ t.c[i].k = "stop")          \* STOP directly under Group ends its iteration
         \/ WellModed(t.c[i], IF t.k \in Modes THEN ModeOf(t.k) ELSE mode)
@@ -58,6 +60,12 @@ Pick ==
      \/ \E kk \in {"tup", "pipe", "dict", "switch", "mdict"}, a \in Top, b \in Trees(SecondDepth) :
            tree' = N(kk, "", <<a, b>>) \/ tree' = N(kk, "", <<b, a>>)
      \/ \E a \in Top : tree' = N("coal", "", <<a>>)
+     \* lazily evaluated sub-specs: a wrapped Iter(..) whose generator is consumed by a LATER chain step, i.e.
+     \* after the chain has moved on from the wrapper's frame: the sub-spec still runs in the wrapper's mode
+     \/ \E m \in Modes \ {"group"}, m2 \in Modes \ {"group"}, a \in Trees(SecondDepth) :
+          \/ tree' = LazyIn(m, a)
+          \/ tree' = Wrap(m2, LazyIn(m, a))
+          \/ tree' = N("pipe", "", <<LazyIn(m, a), P>>)
   /\ WellModed(tree', "AUTO")
   /\ LET r == Start(tree', <<>>, <<>>) IN
        run' = [log |-> r.st.log, acts |-> r.st.acts, out |-> r.out,
